@@ -209,29 +209,65 @@ def _strict_utf8(s):
         return False
 
 
+def _word(tok):
+    i, bits = word_bits(tok)
+    return f"w:{hx(tok)}:{i}:{bits}"
+
+
+def _suffix(text):
+    """what stands behind a letter of a single-dash string: `~` nothing, else `<text>/<int or ->/<bits>`"""
+    if text == "":
+        return "~"
+    i, bits = word_bits(text)
+    return f"{hx(text)}/{i}/{bits}"
+
+
 def lex(tok):
-    """one blank-separated string of a command line -> the model's structured token:
+    """one blank-separated string of a command line (in front of the separator `--`) -> the model's structured token:
     `w:<text>:<int or ->:<float,literal,dotted bits>` word, `s:<c>` short flag, `l:<name>` long option string (exact or
     abbreviated), `e:<name>:<value>:<int or ->:<bits>` `--name=value` (argparse splits at the FIRST `=`; the value is
-    lexed as a word is — it may be empty, start with `-`, contain `=`), `o` everything else (`--`, `-c=v`, `-ab`, "")"""
+    lexed as a word is — it may be empty, start with `-`, contain `=`),
+    `a:<c>:<eq>:<rest>:<int or ->:<bits>:<letters>` a single-dash string with more behind its first letter `c`: `-cREST`
+    (`eq` 0) or `-c=REST` (`eq` 1: ONE `=` directly behind the first letter is taken away, as argparse does when `-c` is an
+    option string); REST lexed as a word is, and REST read letter by letter, each letter with what stands behind it
+    (`<letter>/~` or `<letter>/<text>/<int or ->/<bits>`, comma-separated),
+    `p` the separator `--`, `o` everything else ("", a string that is no strict UTF-8)"""
     if tok == "":
         return "o"
     if not tok.startswith("-") or tok == "-" or NEGATIVE.match(tok):
-        i, bits = word_bits(tok)
-        return f"w:{hx(tok)}:{i}:{bits}"
+        return _word(tok)
+    if not _strict_utf8(tok):
+        return "o"
     if tok.startswith("--"):
-        if tok == "--" or not _strict_utf8(tok):
-            return "o"
+        if tok == "--":
+            return "p"
         if "=" in tok:
             name, _, value = tok[2:].partition("=")
             i, bits = word_bits(value)
             return f"e:{hx(name)}:{hx(value)}:{i}:{bits}"
         return f"l:{hx(tok[2:])}"
-    if "=" in tok:
-        return "o"
     if len(tok) == 2:
         return f"s:{hx(tok[1])}"
-    return "o"
+    c, rest = tok[1], tok[2:]
+    eq = rest.startswith("=")
+    if eq:
+        rest = rest[1:]
+    i, bits = word_bits(rest)
+    letters = ",".join(f"{hx(rest[k])}/{_suffix(rest[k + 1:])}" for k in range(len(rest)))
+    return f"a:{hx(c)}:{int(eq)}:{hx(rest)}:{i}:{bits}:{letters}"
+
+
+def lex_line(toks):
+    """the strings of one command line: behind the FIRST `--` every string is a word whatever it looks like (argparse: "all
+    args after -- are non-options"); a second `--` and the empty string stay outside"""
+    out, after = [], False
+    for t in toks:
+        if after:
+            out.append("o" if t in ("", "--") or not _strict_utf8(t) else _word(t))
+        else:
+            out.append(lex(t))
+            after = t == "--"
+    return out
 
 
 def split_line(line):
@@ -240,7 +276,7 @@ def split_line(line):
 
 
 def enc_tokens(line):
-    return " ".join(lex(t) for t in split_line(line))
+    return " ".join(lex_line(split_line(line)))
 
 
 # ------------------------------------------------------------------------------------------------ verdicts
